@@ -164,13 +164,13 @@ def slim_run(r_):
 
 def window_ms(ck):
     """Confirmation window. The wallet polls every window/10; on an oversubscribed machine the loop is slowed down, so the
-    window grows with the load (at most x2) to keep the scripted polls before the deadline."""
+    window grows with the load (at most x3) to keep the scripted polls before the deadline."""
     base = 400 if ck.thorough else 300
     try:
         load = os.getloadavg()[0] / vlib.NCPU
     except OSError:
         load = 0
-    return int(base * min(2.0, max(1.0, load / 1.5)))
+    return int(base * min(3.0, max(1.0, load / 1.5)))
 
 
 def one_rotation(ck, codes, seeds, wcs, rot, W, first_vec, out):
@@ -198,7 +198,7 @@ def one_rotation(ck, codes, seeds, wcs, rot, W, first_vec, out):
     CLOCK = ("Return:long-after-deadline", "Return:error-before-deadline")
     for attempt, (mult, par) in enumerate(((3, 48), (6, 16))):
         again = [r_ for r_ in accepted if outcome_differs(r_)]
-        suspects = [r_ for r_, why in rejected if why in CLOCK]
+        suspects = [r_ for r_, why in rejected if why in CLOCK or r_["steps"][-1]["k"] == "Timeout"]     # (Timeout: the harness gave up waiting)
         if not again and not suspects:
             break
         out["rerun_for_timing"] = out.get("rerun_for_timing", 0) + len(again) + len(suspects)
@@ -242,7 +242,7 @@ def send_part(ck, codes, out):
             out["vecs"], out["accepted"] = vs, accepted          # kept for the canaries and the samples
     # violations, one report per key; time-dependent ones are reproduced with a longer window first
     for key, (count, v, r_, why) in by_key.items():
-        if key.startswith("C15:confirm:"):
+        if key.startswith("C15:confirm:") or "Timeout" in key or r_["steps"][-1]["k"] == "Timeout":
             r3 = replay_vectors(ck, [dict(v, W=3 * W)], "reproduce_%d" % r_["vec"], 1)[0]
             rej3, notes3 = quiet_judge(ck, [r3], "reproduce_%d_judge" % r_["vec"], codes)
             if not rej3 or run_key(r3, first_note(notes3, 1, "run")) != key:
